@@ -412,19 +412,23 @@ func init() {
 			interleave bool
 		}
 		// second pass: kubelet events may also happen in the middle of a reconcile (one deviation, nothing else)
-		passes := []passT{{2, false}, {1, true}}
+		passes := []passT{{1, true}, {2, false}}
 		if r.Tier == "thorough" {
 			bound, rounds = 3, 7
-			passes = []passT{{3, false}, {1, true}}
+			passes = []passT{{1, true}, {2, false}, {3, false}}
 		}
 		r.Rule = fmt.Sprintf("NodeClaims created by the real provisioner in %d scenarios (plain, startup taint, requested extended resource, template taint, plain next to an unrelated Node that has no provider id) are driven through the real lifecycle controller for %d rounds; "+
 			"each round = one environment event (node appears with/without the unregistered taint, Ready, startup taints removed, extended resource reported, node deleted, the NodeClaim object removed from the API while the controller still holds a cached copy, clock +5m/+15m, controller restart, none) then one Reconcile handed any NodeClaim version not older than the last one given (stale read); "+
 			"every API WRITE and provider call (reads never fail, as the property quantifies) may fail (500 / 409 on optimistic lock / provider error / InsufficientCapacity / NodeClassNotReady). All histories with <=%d deviations from the happy path (non-default event, stale version, fault) are explored; a second pass explores every history with ONE kubelet event (node appears / Ready / taints removed / resource reported) happening in the MIDDLE of a reconcile, before any one of its calls. "+
 			"Oracle at the instant of each provider Create and each NodeClaim write. non-trivial = distinct (scenario, history)", len(lcScenarios), rounds, bound)
 		r.Assumptions = []string{"at-most-once Create is only required while the controller keeps running (runs with a restart skip that clause)", "the launch cache's one-hour real-time TTL is never reached"}
-		enum.RunEveryShard(r, int64(len(lcScenarios)), func(i int64, l *ev.Local) {
-			sc := lcScenarios[i]
-			for _, pass := range passes {
+		// passes outermost, cheapest first: every scenario is covered at the lower bound before the deeper pass starts, so a
+		// deadline cuts the deepest pass only (the evidence says which pass completed)
+		for pi, pass := range passes {
+			pass := pass
+			completed := true
+			enum.RunEveryShard(r, int64(len(lcScenarios)), func(i int64, l *ev.Local) {
+				sc := lcScenarios[i]
 				bound, interleave := pass.bound, pass.interleave
 				ex := &explore.Explorer{Bound: bound, MaxExecs: 200000, Stop: r.Expired, Shard: r.Shard, NShards: r.Shards}
 				ex.Exec = func(run *explore.Run) {
@@ -451,8 +455,14 @@ func init() {
 					l.Outcome("exploration-capped")
 					r.Exhaustive = false
 				}
+			})
+			if r.Expired() {
+				completed = false
 			}
-		})
+			if completed {
+				r.Extra["deepest_pass_completed"] = fmt.Sprintf("pass %d of %d: <=%d deviations, environment events inside a reconcile: %v", pi+1, len(passes), pass.bound, pass.interleave)
+			}
+		}
 	})
 }
 
